@@ -13,7 +13,7 @@
 EXTENDS Naturals, Sequences, FiniteSets
 
 Vars == { "npf", "edge_node", "face_edge", "edge_face", "node_face", "face_face", "holes",
-          "face_centres", "edge_centres", "areas", "edge_z", "edge_dist" }
+          "face_centres", "edge_centres", "areas", "edge_z", "edge_dist", "edge_face_dist", "bounds" }
 
 \* descriptive: direct dependencies of the first access of a variable
 Deps(v) == CASE v = "face_edge"    -> { "edge_node" }
@@ -25,6 +25,8 @@ Deps(v) == CASE v = "face_edge"    -> { "edge_node" }
              [] v = "edge_centres" -> { "edge_node" }
              [] v = "edge_z"       -> { "edge_node" }
              [] v = "edge_dist"    -> { "edge_node" }
+             [] v = "edge_face_dist" -> { "edge_face", "face_centres" }
+             [] v = "bounds"       -> { "face_edge" }
              [] OTHER              -> {}
 RECURSIVE Closure(_)
 Closure(S) == LET T == S \cup UNION { Deps(v) : v \in S } IN IF T = S THEN S ELSE Closure(T)
@@ -35,7 +37,10 @@ SliceTouches(kind) == CASE kind = "face" -> Needs("face_edge")
                         [] kind = "node" -> Needs("face_edge") \cup Needs("node_face")
                         [] kind = "edge" -> Needs("face_edge") \cup Needs("edge_face")
 \* variables whose every row belongs to one face / node / edge: the result keeps them, sliced along that dimension
-Carried == { "npf", "edge_node", "face_centres", "edge_centres", "areas", "edge_z", "edge_dist" }
+Carried == { "npf", "edge_node", "face_centres", "edge_centres", "areas", "edge_z", "edge_dist", "bounds" }
+\* one value per edge, but its MEANING depends on which faces are present (zero where an edge has one face only):
+\* the restriction of the source's values is not the subset's value, it has to be derived again
+Neighbourhood == { "edge_face_dist" }
 \* index tables pointing INTO faces or edges: must be recomputed on the result
 Reindexed == { "face_edge", "edge_face", "node_face", "face_face", "holes" }
 
@@ -43,16 +48,19 @@ Reindexed == { "face_edge", "edge_face", "node_face", "face_face", "holes" }
 \* keepHelperAttrs : the re-indexed edge table of the result keeps the attrs of the source's edge table,
 \*                   including the side tables (inverse_indices, fill_value_mask) of the SOURCE's construction
 \* holesCarried    : hole_edge_indices of the source is copied to the result unsliced
-Mech_intended == [ keepHelperAttrs |-> FALSE, holesCarried |-> FALSE ]
-\* the code as it is now (after fix commits 8ad0ac60 and 7638a0fd): revised whenever a fix lands
-Mech_observed == [ keepHelperAttrs |-> FALSE, holesCarried |-> FALSE ]
+\* neighbourCarried: neighbourhood-dependent per-edge values of the source are kept, sliced along n_edge
+Mech_intended == [ keepHelperAttrs |-> FALSE, holesCarried |-> FALSE, neighbourCarried |-> FALSE ]
+\* the code as it is now (after fix commits 8ad0ac60 and 7638a0fd): revised whenever a fix lands.
+\* OPEN (proposed/C09-5): edge_face_distances is still carried; set neighbourCarried to FALSE when that fix lands
+Mech_observed == [ keepHelperAttrs |-> FALSE, holesCarried |-> FALSE, neighbourCarried |-> TRUE ]
 \* the code as first read (before those commits); TLC must keep refuting these variants
-Mech_prefix   == [ keepHelperAttrs |-> TRUE,  holesCarried |-> TRUE  ]
+Mech_prefix   == [ keepHelperAttrs |-> TRUE,  holesCarried |-> TRUE,  neighbourCarried |-> TRUE ]
 MechNamed(n) == CASE n = "intended"     -> Mech_intended
                   [] n = "observed"     -> Mech_observed
                   [] n = "prefix"       -> Mech_prefix
                   [] n = "rev_8ad0ac60" -> [ Mech_observed EXCEPT !.keepHelperAttrs = TRUE ]   \* side tables copied again
                   [] n = "rev_7638a0fd" -> [ Mech_observed EXCEPT !.holesCarried = TRUE ]      \* hole list carried again
+                  [] n = "carry_neighbour" -> [ Mech_intended EXCEPT !.neighbourCarried = TRUE ]  \* edge_face_distances carried
 
 Shapes == { "proper", "perm", "identity" }     \* proper subset / all faces in another order / all faces in order
 \* side tables on the result's edge table right after slicing
@@ -60,7 +68,9 @@ AttrsAfterSlice(mech, prov) == IF prov = "derived" /\ mech.keepHelperAttrs THEN 
 \* the result's store and value tags right after slicing
 ResStoreAfterSlice(mech, srcStore) ==
     (srcStore \cap Carried) \cup (IF mech.holesCarried THEN srcStore \cap { "holes" } ELSE {})
-TagAfterSlice(v, shape) == IF v = "holes" /\ shape = "proper" THEN "wrong" ELSE "ok"
+                            \cup (IF mech.neighbourCarried THEN srcStore \cap Neighbourhood ELSE {})
+\* with all faces kept every edge keeps both its faces and its number: only a proper subset goes wrong
+TagAfterSlice(v, shape) == IF v \in ({ "holes" } \cup Neighbourhood) /\ shape = "proper" THEN "wrong" ELSE "ok"
 
 \* outcome of computing v itself on the result, its dependencies being available and right
 OwnOutcome(v, attrs, shape) ==
